@@ -55,7 +55,8 @@ func lifeScenario(kind, what string, rng *rand.Rand) {
 	if what == "latedial" {
 		slowDial = 250 * time.Millisecond
 	}
-	opt := upstream.Opt{TLSConfig: &tls.Config{InsecureSkipVerify: true}, DialTimeout: 2 * time.Second,
+	s.keepFailedHandshake.Store(what == "badcert")
+	opt := upstream.Opt{TLSConfig: &tls.Config{InsecureSkipVerify: what != "badcert"}, DialTimeout: 2 * time.Second,
 		Control: func(network, address string, c syscall.RawConn) error {
 			if slowDial > 0 && !(strings.HasSuffix(address, ":0") || strings.HasPrefix(address, ":") || strings.HasPrefix(address, "[::]") || strings.HasPrefix(address, "0.0.0.0")) {
 				time.Sleep(slowDial) // the dial completes after Close
@@ -145,6 +146,11 @@ func lifeScenario(kind, what string, rng *rand.Rand) {
 		time.Sleep(150 * time.Millisecond)
 		doClose(1)
 		wg.Wait()
+	case "badcert": // the server's certificate is not trusted: the exchange fails and nothing stays open after Close
+		for i := 0; i < 2; i++ {
+			one(time.Second, "before")
+		}
+		doClose(1)
 	case "hsstall": // Close while the dial is past the TCP connect and stuck in the TLS handshake
 		s.fault.Store("stall")
 		for i := 0; i < 2; i++ {
@@ -186,7 +192,7 @@ func modeLife(thorough bool) {
 	onlyEvents = map[string]bool{}
 	rng := rand.New(rand.NewSource(seed))
 	kinds := []string{"udp", "tcp", "tcp+pipeline", "tls", "tls+pipeline", "https", "quic", "h3"}
-	whats := []string{"idle", "inflight", "latedial", "timeout-then-close", "blackhole", "hsstall", "eol"}
+	whats := []string{"idle", "inflight", "latedial", "timeout-then-close", "blackhole", "hsstall", "badcert", "eol"}
 	// sequential: the socket census is process wide
 	for _, k := range kinds {
 		for _, w := range whats {
@@ -194,6 +200,9 @@ func modeLife(thorough bool) {
 				continue
 			}
 			if w == "blackhole" && k != "quic" && k != "h3" {
+				continue
+			}
+			if w == "badcert" && !(k == "tls" || k == "tls+pipeline") {
 				continue
 			}
 			if w == "hsstall" && !(k == "tls" || k == "tls+pipeline" || k == "https") {
